@@ -16,6 +16,7 @@ if [ $st -ne 0 ]; then
       lean/DefconModel.lean|lean/DefconModel/AllDrivers.lean)
         git show :1:$f > /tmp/exp/m_base; git show :2:$f > /tmp/exp/m_ours; git show :3:$f > /tmp/exp/m_theirs
         git merge-file --union -p /tmp/exp/m_ours /tmp/exp/m_base /tmp/exp/m_theirs > $f; git add $f ;;
+      known_findings.json) /venv/bin/python harness/merge_findings.py && git add $f ;;
       *) echo "CONFLICT (manual): $f" ;;
     esac
   done
